@@ -19,6 +19,11 @@ structure TableOK (e : Eng) : Prop where
 theorem runes_single (b : Nat) (h : b < 0x80) : runesOfBytes [b] = [b] := by
   simp [runesOfBytes, decodeAll, decodeRune, h]
 
+/-- the multibyte fallback leaves a dispatch that found a binding alone -/
+theorem matchCharacter_bound (e : Eng) (bd : Bind) (pfx : Bool) (read : Seq) (h : bd.action ≠ "") :
+    matchCharacter e bd pfx read = (e, bd, pfx, read) := by
+  simp [matchCharacter, h]
+
 /-- dispatching one byte that is bound exactly and extends to nothing -/
 theorem matchMain_byte (e : Eng) (b : Nat) (rest : List Nat) (bd : Bind)
     (hne : e.mainTbl.isEmpty = false) (hb : b < 0x80) (hesc : b ≠ 0x1b)
@@ -35,7 +40,7 @@ theorem matchMain_byte (e : Eng) (b : Nat) (rest : List Nat) (bd : Bind)
   have hpop : e.keys.pop = { e.keys with buf := rest } := by
     simp [Keys.pop, hbuf]
   simp only [dispatchKeys, hpeek, List.nil_append, matchBind_eq, h1, h2, hact, false_and, if_false,
-    Bool.false_eq_true, hpop]
+    Bool.false_eq_true, hpop, matchCharacter_bound _ _ _ _ hact]
   simp [Keys.matchedKeys, runes_single b hb, isEscapeKey, hesc, hasCmd, hmk]
 
 
